@@ -243,7 +243,9 @@ pub fn run(args: &Args) {
         // 2-D and 3-D grids (small): the profile has to be smooth on the grid's topology (periodic) and resolved by 8-32 points
         {
             let kind = "wave";
-            if !args.thorough && rng.below(2) != 0 { continue; }
+            // quick tier: every multi-segment functional (mixtures, heterosegmented chains), a seeded half of the single-segment ones
+            let multi = fu.n > 1 || fu.name.starts_with("GcPcSaft");
+            if !args.thorough && !multi && rng.below(2) != 0 { continue; }
             let l = Length::from_reduced(sig * 10.0);
             let nn = if args.thorough { 32 } else { 16 };
             let ax = |n: usize| Axis::new_cartesian(n, l, None);
